@@ -814,6 +814,43 @@ func (in *inst) rewriteBody(body *ast.BlockStmt) {
 	in.labelTicks(body)
 }
 
+// cloneSimple deep-copies an address expression made of identifiers, field selections,
+// dereferences, parentheses and constant/identifier indexing (no calls, no receives): such an
+// expression can be evaluated a second time without side effects.
+func cloneSimple(e ast.Expr) (ast.Expr, bool) {
+	switch x := e.(type) {
+	case *ast.Ident:
+		return &ast.Ident{Name: x.Name, NamePos: x.NamePos}, true
+	case *ast.BasicLit:
+		return &ast.BasicLit{Kind: x.Kind, Value: x.Value, ValuePos: x.ValuePos}, true
+	case *ast.ParenExpr:
+		if c, ok := cloneSimple(x.X); ok {
+			return &ast.ParenExpr{X: c}, true
+		}
+	case *ast.StarExpr:
+		if c, ok := cloneSimple(x.X); ok {
+			return &ast.StarExpr{X: c}, true
+		}
+	case *ast.UnaryExpr:
+		if x.Op == token.AND {
+			if c, ok := cloneSimple(x.X); ok {
+				return &ast.UnaryExpr{Op: token.AND, X: c}, true
+			}
+		}
+	case *ast.SelectorExpr:
+		if c, ok := cloneSimple(x.X); ok {
+			return &ast.SelectorExpr{X: c, Sel: &ast.Ident{Name: x.Sel.Name}}, true
+		}
+	case *ast.IndexExpr:
+		c, ok := cloneSimple(x.X)
+		i, ok2 := cloneSimple(x.Index)
+		if ok && ok2 {
+			return &ast.IndexExpr{X: c, Index: i}, true
+		}
+	}
+	return nil, false
+}
+
 func unparen(e ast.Expr) ast.Expr {
 	for {
 		p, ok := e.(*ast.ParenExpr)
@@ -1100,6 +1137,14 @@ func (in *inst) callExpr(ce *ast.CallExpr, parent ast.Node) ast.Expr {
 		if strings.HasPrefix(name, "Load") {
 			w = "AL"
 		}
+		if last := len(ce.Args) - 1; last >= 1 && !in.isConstOrNil(ce.Args[last]) {
+			// scheduling point immediately before the operation, after all operands (a constant
+			// last operand cannot contain a scheduling point, the order is immaterial then)
+			if addr, ok := cloneSimple(ce.Args[0]); ok {
+				ce.Args[last] = call(rt("AV"), in.site("atomic", ce), addr, ce.Args[last])
+				return nil
+			}
+		}
 		ce.Args[0] = call(rt(w), in.site("atomic", ce), ce.Args[0])
 		return nil
 	}
@@ -1111,7 +1156,7 @@ func (in *inst) callExpr(ce *ast.CallExpr, parent ast.Node) ast.Expr {
 	if fn, ok := in.info.Uses[se.Sel].(*types.Func); ok && fn.Pkg() != nil {
 		full := fn.Pkg().Path() + "." + fn.Name()
 		switch full {
-		case "reflect.Select", "sync.NewCond", "context.WithTimeout", "context.WithDeadline", "net.Dial", "net.Listen", "net.DialTimeout":
+		case "reflect.Select", "context.WithTimeout", "context.WithDeadline", "net.Dial", "net.Listen", "net.DialTimeout":
 			if fn.Type().(*types.Signature).Recv() == nil {
 				in.unsupported(ce.Pos(), full+" is not modelled by the simulator")
 			}
@@ -1147,6 +1192,12 @@ func (in *inst) callExpr(ce *ast.CallExpr, parent ast.Node) ast.Expr {
 		if fn.Name() == "Load" {
 			w = "AL"
 		}
+		if last := len(ce.Args) - 1; last >= 0 && !in.isConstOrNil(ce.Args[last]) {
+			if addr, ok := cloneSimple(ptr); ok {
+				ce.Args[last] = call(rt("AV"), in.site("atomic", ce), addr, ce.Args[last])
+				return nil
+			}
+		}
 		se.X = call(rt(w), in.site("atomic", ce), ptr)
 		return nil
 	case "sync":
@@ -1174,11 +1225,17 @@ func (in *inst) callExpr(ce *ast.CallExpr, parent ast.Node) ast.Expr {
 			to = "WGWait"
 		case "Once.Do":
 			to = "OnceDo"
+		case "Cond.Wait":
+			to = "CondWait"
+		case "Cond.Signal":
+			to = "CondSignal"
+		case "Cond.Broadcast":
+			to = "CondBroadcast"
 		case "Map.Range":
 			in.unsupported(ce.Pos(), "sync.Map.Range iterates in runtime-random order")
 			return nil
 		default:
-			if tn == "Cond" || tn == "RWMutex" {
+			if tn == "RWMutex" {
 				in.unsupported(ce.Pos(), "sync."+tn+"."+fn.Name()+" is not modelled by the simulator")
 			}
 			if tn == "Pool" || tn == "Map" {
